@@ -27,7 +27,8 @@ def run(cx):
                  ("R07c", "cycles raise ValueError"),
                  ("R07d", "reports are assembled in dependency order from already built component graphs"),
                  ("R07e", "graph searches over builds / commits prune by membership only, never by ordering of allocation ids"),
-                 ("R07f", "every build number of a build commit resolves to its report build (what parent repositories look pins up in)")):
+                 ("R07f", "every build number of a build commit resolves to its report build (what parent repositories look pins up in)"),
+                 ("R07g", "a build keeps the component state of EVERY relevant component (the baseline of later builds), unfiltered")):
         cx.rule(r, t)
     init = cx.func(REL, "ReposCollection.__init__", "R07a")
     mrd = cx.func(REL, "ReposCollection.make_reports_data", "R07d")
@@ -130,6 +131,7 @@ def run(cx):
     # ------------------------------------------------------------------ R07e
     cx.guard(_r07e, cx, repo)
     cx.guard(_r07f, cx, repo)
+    cx.guard(_r07g, cx, repo)
 
 
 CONTROL = """
@@ -219,3 +221,48 @@ def _r07f(cx, repo):
         key = c.args[0] if isinstance(c, ast.Call) else c.slice
         ok = norm(key).endswith(".as_tuple()") or isinstance(key, ast.Name)
         cx.ob("R07f", c, ok, "pins are looked up by the number's tuple form" if ok else f"pin look-up key `{norm(key)}` is not the tuple form the map is keyed by")
+
+
+def _r07g(cx, repo):
+    """The bumps map of a report build is read by the builds that follow it (`parent_rbuild.bumps.get(component)`) as the
+    baseline "component version shipped so far".  Structural necessary condition of "at exactly the first parent build ... and
+    at no other": the map stored on RBuild is the complete result of _mk_bumps_info - one entry per relevant component, trivial
+    ones included - not a filtered copy; otherwise a later pin move is measured from the beginning of the component history
+    and component builds already recorded are recorded again."""
+    mk = cx.func(REL, "RGraph._mk_rcommits", "R07g")
+    bi = cx.func(REL, "RGraph._mk_bumps_info", "R07g")
+    rb_init = cx.func(REL, "RBuild.__init__", "R07g")
+    ps = params(rb_init)
+    cx.need("bumps" in ps, "R07g", rb_init, "RBuild(..., bumps)")
+    k = ps.index("bumps") - 1
+    ok = any(norm(s_) == "self.bumps = bumps" for s_ in rb_init.body)
+    cx.ob("R07g", rb_init, ok, "RBuild stores the map it is given" if ok else "RBuild does not store its bumps argument unchanged")
+    sites = [c for c in walk_local(mk) if isinstance(c, ast.Call) and call_name(c) == "RBuild"]
+    cx.at_least("R07g", "RBuild construction sites in _mk_rcommits", len(sites), 1)
+    for c in sites:
+        a = c.args[k] if k < len(c.args) else next((kw.value for kw in c.keywords if kw.arg == "bumps"), None)
+        ok = isinstance(a, ast.Name)
+        why = "the bumps argument is not a plain variable"
+        if ok:
+            srcs = [(st, v) for st, v in assignments(mk, a.id) if v is not None and not (isinstance(v, ast.Constant) and v.value is None)]
+            bad = [(st, v) for st, v in srcs if not (isinstance(v, ast.Call) and call_name(v) == bi.name)]
+            ok = bool(srcs) and not bad
+            if bad:
+                why = (f"`{a.id}` is re-built by `{norm(bad[0][1])[:70]}` before it is stored on the build: entries are dropped, so a later build of the branch finds no baseline "
+                       "for that component and reports the whole component history again")
+            elif not srcs:
+                why = f"`{a.id}` does not come from {bi.name}"
+        cx.ob("R07g", c, ok, f"the build stores the complete map returned by {bi.name}" if ok else why)
+    # one entry per relevant component, unconditionally
+    stores = [n for n in walk_local(bi) if isinstance(n, ast.Assign) and isinstance(n.targets[0], ast.Subscript) and is_name(n.targets[0].value, "components_bumps")]
+    ok = len(stores) == 1
+    if ok:
+        lp = enclosing_loops(stores[0])
+        ok = bool(lp) and parent(stores[0]) is lp[0] and isinstance(lp[0], ast.For)
+        if ok:
+            conts = [x for x in ast.walk(lp[0]) if isinstance(x, ast.Continue) and enclosing_loops(x) and enclosing_loops(x)[0] is lp[0]]
+            ok = all("relevant" in norm(parent(x).test) for x in conts if isinstance(parent(x), ast.If)) and len(conts) <= 1
+    cx.ob("R07g", stores[0] if stores else bi, ok, "every relevant component gets an entry (whether or not its pin moved)" if ok else "some relevant components get no entry in the bumps map")
+    rets = [r for r in walk_local(bi) if isinstance(r, ast.Return)]
+    ok = len(rets) == 1 and norm(rets[0].value) == "components_bumps"
+    cx.ob("R07g", rets[0] if rets else bi, ok, "the complete map is returned" if ok else "the returned map is not the one that was filled")
